@@ -663,13 +663,46 @@ func c15MixedRetypedArg(src string) bool {
 			*differs = true
 		}
 	}
+	// ... or the mixed tree contains a division of two literal-only operands (`1 / 2 - F64`): an integer division untyped, a
+	// float division once the literals are retyped - the same retyping, whatever the kinds of the other leaves
+	var litOnly func(n ast.Node) bool
+	litOnly = func(n ast.Node) bool {
+		switch x := n.(type) {
+		case *ast.IntegerNode:
+			return true
+		case *ast.UnaryNode:
+			return (x.Operator == "+" || x.Operator == "-") && litOnly(x.Node)
+		case *ast.BinaryNode:
+			switch x.Operator {
+			case "+", "-", "*", "/":
+				return litOnly(x.Left) && litOnly(x.Right)
+			}
+		}
+		return false
+	}
+	var litDivision func(n ast.Node) bool
+	litDivision = func(n ast.Node) bool {
+		switch x := n.(type) {
+		case *ast.UnaryNode:
+			return (x.Operator == "+" || x.Operator == "-") && litDivision(x.Node)
+		case *ast.BinaryNode:
+			switch x.Operator {
+			case "+", "-", "*", "/":
+				if x.Operator == "/" && litOnly(x.Left) && litOnly(x.Right) {
+					return true
+				}
+				return litDivision(x.Left) || litDivision(x.Right)
+			}
+		}
+		return false
+	}
 	check := func(args []ast.Node) {
 		for _, a := range args {
 			lit, other := false, false
 			if arith(a, &lit, &other) && lit && other {
 				differs := true
 				if t := a.Type(); t != nil {
-					differs = false
+					differs = litDivision(a)
 					otherKinds(a, t.Kind(), &differs)
 				}
 				if differs {
